@@ -37,7 +37,7 @@ def plan(tier, seed):
 def gen_case(rng):
     ang = lambda: float(rng.uniform(-50, 50)) if rng.random() < 0.7 else float(rng.choice([2 * PI, -2 * PI, 2 * PI + 1e-9, 7.0, -7.0, 0.0, 10.0, 3 * PI, -4 * PI, 49.9]))
     n = int(rng.integers(1, 8))
-    return {
+    case = {
         "a": gen.taa(rng, 10.0).tolist(), "b": gen.taa(rng, 10.0).tolist(), "c": gen.taa(rng, 10.0).tolist(),
         "delta": float(rng.uniform(1e-3, 1.0)) if rng.random() < 0.9 else 1.0,
         "steps": int(rng.integers(2, 201)) if rng.random() < 0.8 else int(rng.choice([2, 3, 200])),
@@ -46,9 +46,14 @@ def gen_case(rng):
         "six": [float(rng.uniform(-100, 100)) for _ in range(3)] + [ang() for _ in range(3)],
         "ang": ang(),
         "S": gen.screw_axes(rng, n).tolist(), "theta": rng.uniform(-PI, PI, n).tolist(),
-        "Q": rng.normal(size=(3, 4, 4)).tolist(), "Aq": rng.normal(size=(3, 4)).tolist(), "x0": rng.normal(size=4).tolist(),
+        "Q": None, "Aq": None, "x0": None, "nx": int(rng.integers(1, 5)), "mq": int(rng.integers(1, 4)),
         "h": float(10 ** rng.uniform(-3, -1)),
     }
+    nx, mq = case["nx"], case["mq"]
+    case["Q"] = rng.normal(size=(mq, nx, nx)).tolist()
+    case["Aq"] = rng.normal(size=(mq, nx)).tolist()
+    case["x0"] = rng.normal(size=nx).tolist()
+    return case
 
 
 def congruent(x, y, scale=1.0):
